@@ -35,6 +35,7 @@ class Built:
         self.tags = list(kw.get("tags", []))
         self.batch_coupled_in_train = kw.get("batch_coupled_in_train", False)
         self.family = kw.get("family", None)
+        self.onto = kw.get("onto", None)  # None -> derived: leaf maps its nominal domain onto its nominal range
 
 
 # ------------------------------------------------------------------------------------------------------------------
@@ -168,6 +169,15 @@ def build_leaf(spec, shape, ctxk):
     from nflows.transforms import nonlinearities as NL
 
     t = spec["t"]
+    if FAM_OF.get(t) == "cub":
+        # the cubic root selection accepts roots within eps=1e-5 of a bin: bins must be much wider than that (declared
+        # constant), so floors below the default 1e-3 are outside the cubic family's envelope
+        spec = dict(spec)
+        for k in ("min_bin_width", "min_bin_height"):
+            if k in spec and spec[k] < 1e-3:
+                spec[k] = 1e-3
+        if spec.get("extra"):
+            spec["extra"] = {k: (max(v, 1e-3) if k in ("min_bin_width", "min_bin_height") else v) for k, v in spec["extra"].items()}
     D = int(np.prod(shape))
     if t == "identity":
         return Built(T.IdentityTransform(), shape, dom="any", rng="same", elementwise=True, affine=True)
@@ -317,7 +327,7 @@ def build_leaf(spec, shape, ctxk):
         m = cls(mask, net, **kw)
         dom, rng = _spline_dom(spec)
         return Built(m, shape, dom=dom, rng=rng, uses_ctx=uses_ctx, smooth=smooth and fam != "lin", family=fam,
-                     specials=_spline_specials(spec), A_inv=("cubic_w", 1.0) if fam == "cub" else 0.0, tags=["coupling", "spline"])
+                     specials=_spline_specials(spec), A_inv=("cubic_w", 2 * float(spec.get("tb", 1.0)) if spec.get("tails") else 1.0) if fam == "cub" else 0.0, tags=["coupling", "spline"])
     if t.startswith("ar_"):
         kw = dict(features=D, hidden_features=spec.get("hidden", 8), context_features=ctxk if spec.get("use_ctx", True) else None,
                   num_blocks=spec.get("blocks", 1), use_residual_blocks=bool(spec.get("res", True)),
@@ -392,7 +402,10 @@ def build(spec, shape, ctxk=None):
         rng = b.dom if b.dom != "any" else "same"
         if b.dom == "any":
             dom = "any"
-        return Built(m, b.out_shape, out_shape=b.in_shape, dom=dom, rng=rng, parts=[b], A_out=b.A_out, A_ld=b.A_ld, A_inv=b.A_inv,
+        # the cubic inverse drops the cubic term below quadratic_threshold (declared approximation): its reported
+        # log-det is exact at the returned point, but the returned point is approximate
+        extra_ld = 1e-3 * int(np.prod(shape)) if b.family == "cub" else 0.0
+        return Built(m, b.out_shape, out_shape=b.in_shape, dom=dom, rng=rng, parts=[b], A_out=b.A_out, A_ld=b.A_ld + extra_ld, A_inv=b.A_inv,
                      smooth=b.smooth, uses_ctx=b.uses_ctx, umnn=b.umnn, affine=b.affine, elementwise=b.elementwise,
                      inv_via_forward=False, tags=["inverse"] + b.tags, batch_coupled_in_train=b.batch_coupled_in_train,
                      specials=[], family=b.family)
@@ -585,9 +598,9 @@ def resolve_A_inv(built):
     if isinstance(a, tuple):
         if a[0] == "cubic":
             _, lo, hi, minw = a
-            return _cubic_A(built.module if not hasattr(built.module, "_transform") else built.module._transform, lo, hi, "cub", minw) * max(1.0, hi - lo)
+            return 1e-3 * max(1.0, hi - lo)  # quadratic_threshold: cubic term dropped when below 1e-3 of the bin height
         if a[0] == "cubic_w":
-            return 1e-3
+            return 1e-3 * max(1.0, a[1])
     if built.parts and len(built.parts) == 1 and "inverse" in built.tags:
         return resolve_A_inv(built.parts[0])
     return float(a)
@@ -926,7 +939,8 @@ def transform_case(draw, opts=None):
         spec, dom = draw(fn_box_spec())
         ctxk = None
     regime = draw(st.sampled_from(opts.get("regimes", REGIMES_ALL)))
-    return {"shape": shape, "dom": dom, "ctx": ctxk, "spec": spec, "init": {"regime": regime, "seed": draw(st.integers(0, 10 ** 6))}}
+    return {"shape": shape, "dom": dom, "ctx": ctxk, "spec": spec,
+            "init": {"regime": regime, "seed": draw(st.integers(0, 10 ** 6)), "reload": draw(st.integers(0, 3)) == 0}}
 
 
 def instantiate(case):
@@ -936,7 +950,42 @@ def instantiate(case):
     if b.umnn and regime not in ("fresh", "small", "zero"):
         regime = "small"  # the integrand's ELU+1 underflows to 0 (log-det -inf) under O(1) random weights: not "moderate" for UMNN
     apply_regime(b.module, regime, case["init"]["seed"])
+    if case["init"].get("reload"):
+        # history: the object under test is a differently seeded fresh instance that received the state through
+        # state_dict()/load_state_dict() (random permutations, masks, running statistics must travel and be used)
+        donor = b
+        b = build(reseed(case["spec"], 7919), case["shape"], case.get("ctx"))
+        b.module.load_state_dict(donor.module.state_dict())
     b.module.eval()
+    watch_conditioners(b)
+    return b
+
+
+def reseed(spec, delta):
+    if isinstance(spec, dict):
+        return {k: ((v + delta) if k == "seed" and isinstance(v, int) else reseed(v, delta)) for k, v in spec.items()}
+    if isinstance(spec, list):
+        return [reseed(v, delta) for v in spec]
+    return spec
+
+
+def watch_conditioners(b):
+    """Records the largest |unnormalised spline/affine parameter| any conditioner network produced (b.param_max[0]):
+    the checks' parameter domain is |unnormalised| <= ~10; tail inputs of size 40-120 fed to a conditioner can exceed it."""
+    b.param_max = [0.0]
+
+    def hook(_m, _inp, out):
+        try:
+            v = float(out.detach().abs().max())
+            if v == v and v > b.param_max[0]:
+                b.param_max[0] = v
+        except Exception:
+            pass
+
+    for name, mod in b.module.named_modules():
+        leaf = name.split(".")[-1]
+        if leaf in ("transform_net", "autoregressive_net"):
+            mod.register_forward_hook(hook)
     return b
 
 
@@ -961,6 +1010,18 @@ def _sat_kind(spec):
         if o in ("logtanh", "compositecdf"):
             return "R"
     return None
+
+
+def _compositecdf_ok(module, z, inverse=False):
+    """CompositeCDFTransform = [squash, cdf, squash^-1]; the final logit clamps at eps=1e-6, so the value entering it
+    must stay away from 0/1 (otherwise the declared clamp, not the spline, decides the result)."""
+    try:
+        sq, cdf = module._transforms[0], module._transforms[1]
+        u, _ = sq(z)
+        v, _ = cdf.inverse(u) if inverse else cdf(u)
+        return float(v.min()) >= 1e-4 and float(v.max()) <= 1 - 1e-4 and float(u.min()) >= 1e-4 and float(u.max()) <= 1 - 1e-4
+    except Exception:
+        return True
 
 
 def _sat_ok(kind, z, bound):
@@ -993,6 +1054,10 @@ def chain_moderate(b, X, ctx, spec=None, bound=6.0):
             for p, ps in zip(b.parts, spec["parts"]):
                 if not _sat_ok(_sat_kind(ps), z, bound):
                     return False
+                if ps["t"] == "compositecdf" and not _compositecdf_ok(p.module, z):
+                    return False
+                if ps["t"] == "inverse" and ps["of"]["t"] == "compositecdf" and not _compositecdf_ok(p.module._transform, z, True):
+                    return False
                 try:
                     z, _ = p.module(z, ctx)
                 except Exception:
@@ -1000,6 +1065,10 @@ def chain_moderate(b, X, ctx, spec=None, bound=6.0):
                 if not bool(torch.isfinite(z).all()):
                     return False
             return True
+        if spec["t"] == "compositecdf" and not _compositecdf_ok(b.module, X):
+            return False
+        if spec["t"] == "inverse" and spec["of"]["t"] == "compositecdf" and not _compositecdf_ok(b.module._transform, X, True):
+            return False
         return _sat_ok(_sat_kind(spec), X, bound)
 
 
@@ -1075,3 +1144,98 @@ def one_sided_logdet_interval(fo, X, i, elementwise, h=1e-7):
     if not all(np.isfinite(v) for v in vals):
         return None, None
     return min(vals), max(vals)
+
+
+def robust_jac(fo, X, i, h=1e-7):
+    """Row Jacobian for conditioning estimates: autograd; if that is singular or non-finite (torch.clamp has zero gradient
+    exactly at its bounds, i.e. at box end-points) fall back to one-sided finite differences stepping into the domain."""
+    from vf.oracles import jac_in_batch
+
+    J = jac_in_batch(fo, X, i)
+    ok = bool(torch.isfinite(J).all())
+    if ok:
+        try:
+            ok = float(torch.linalg.svdvals(J).min()) > 1e-12 * float(J.abs().max() + 1e-300)
+        except Exception:
+            ok = False
+    if ok:
+        return J
+    xi = X[i].detach().reshape(-1)
+    n = xi.numel()
+    cols = []
+    with torch.no_grad():
+        base = fo(X)[i].reshape(-1)
+        for j in range(n):
+            col = None
+            for sgn in (1.0, -1.0):
+                step = sgn * h * (1.0 + abs(float(xi[j])))
+                xp = xi.clone()
+                xp[j] += step
+                Xp = torch.cat([X[:i], xp.reshape(X[i].shape)[None], X[i + 1:]], 0)
+                try:
+                    col = (fo(Xp)[i].reshape(-1) - base) / step
+                    break
+                except Exception as e:
+                    if type(e).__name__ != "InputOutsideDomain":
+                        raise
+            if col is None:
+                return J
+            cols.append(col)
+    return torch.stack(cols, 1)
+
+
+def chain_moderate_inverse(b, Y, ctx, spec, bound=6.0):
+    """Saturation guard for the inverse direction: walks the parts in reverse through their public inverse."""
+    with torch.no_grad():
+        if not bool(torch.isfinite(Y).all()):
+            return False
+        if spec["t"] != "composite":
+            if spec["t"] == "compositecdf" and not _compositecdf_ok(b.module, Y, True):
+                return False
+            if spec["t"] == "inverse" and spec["of"]["t"] == "compositecdf" and not _compositecdf_ok(b.module._transform, Y):
+                return False
+            return _sat_ok(_sat_kind({"t": "inverse", "of": spec}) if spec["t"] != "inverse" else _sat_kind(spec["of"]), Y, bound)
+        z = Y
+        for p, ps in zip(b.parts[::-1], spec["parts"][::-1]):
+            kind = _sat_kind({"t": "inverse", "of": ps}) if ps["t"] != "inverse" else _sat_kind(ps["of"])
+            if ps["t"] in ("sigmoid", "cauchycdf"):
+                kind = "unit"
+            if ps["t"] in ("logit", "cauchycdfinv"):
+                kind = "R"
+            if not _sat_ok(kind, z, bound):
+                return False
+            if ps["t"] == "compositecdf" and not _compositecdf_ok(p.module, z, True):
+                return False
+            if ps["t"] == "inverse" and ps["of"]["t"] == "compositecdf" and not _compositecdf_ok(p.module._transform, z):
+                return False
+            try:
+                z, _ = p.module.inverse(z, ctx)
+            except Exception:
+                return True
+            if not bool(torch.isfinite(z).all()):
+                return False
+        return True
+
+
+def one_sided_jacs(fo, X, i, h=1e-7):
+    """Left and right one-sided finite-difference Jacobians of row i (those whose perturbed points stay in the domain)."""
+    xi = X[i].detach().reshape(-1)
+    n = xi.numel()
+    out = []
+    with torch.no_grad():
+        base = fo(X)[i].reshape(-1)
+        for sgn in (-1.0, 1.0):
+            cols = []
+            try:
+                for j in range(n):
+                    step = sgn * h * (1.0 + abs(float(xi[j])))
+                    xp = xi.clone()
+                    xp[j] += step
+                    Xp = torch.cat([X[:i], xp.reshape(X[i].shape)[None], X[i + 1:]], 0)
+                    cols.append((fo(Xp)[i].reshape(-1) - base) / step)
+            except Exception as e:
+                if type(e).__name__ != "InputOutsideDomain":
+                    raise
+                continue
+            out.append(torch.stack(cols, 1))
+    return out
